@@ -223,6 +223,8 @@ def gen_model(seed):
         "groups": groups,
         "contexts": contexts,
         "callback_payload": cb,
+        # long vtable entries broken over several lines, as cbindgen does beyond its line length
+        "wrap_long": r.chance(1, 2),
         "no_context": r.chance(1, 4),
         "leftover": r.chance(2, 3),
         "generic_objs": r.chance(1, 3),
@@ -241,14 +243,23 @@ def field_ctx(ctx):
     return "struct %s context;" % ctx
 
 
-def vtbl_lines(funcs, cn, v1_cont=None):
+def wrap_entry(head, parts, wrap):
+    """cbindgen breaks an entry that exceeds its line length after every argument, aligning the
+    continuation lines with the first argument."""
+    if not wrap or len(parts) < 3:
+        return "    %s%s);" % (head, ", ".join(parts))
+    pad = " " * (4 + len(head))
+    return "    %s%s);" % (head, (",\n" + pad).join(parts))
+
+
+def vtbl_lines(funcs, cn, v1_cont=None, wrap=False):
     lines = []
     for (fname, kind, args, ret) in funcs:
         if v1_cont is not None and kind == "own" and v1_cont != "Box":
             continue
         recv = {"ref": "const struct %s *cont" % cn, "mut": "struct %s *cont" % cn, "own": "struct %s cont" % cn}[kind]
-        arglist = ", ".join([recv] + ["%s%s%s" % (a[0], "" if a[0].endswith("*") else " ", a[1]) for a in args])
-        lines.append("    %s%s(*%s)(%s);" % (ret, "" if ret.endswith("*") else " ", fname, arglist))
+        parts = [recv] + ["%s%s%s" % (a[0], "" if a[0].endswith("*") else " ", a[1]) for a in args]
+        lines.append(wrap_entry("%s%s(*%s)(" % (ret, "" if ret.endswith("*") else " ", fname), parts, wrap))
     return lines
 
 
@@ -327,7 +338,7 @@ def render(model):
                 rn = mangle(t_rettmp(T, ctx))
                 w(CONT_DOC + "typedef struct %s {\n    %s\n    %s\n    struct %s ret_tmp;\n} %s;\n" % (cn, CONT_FIELD[cont], field_ctx(ctx), rn, cn))
                 vn = mangle((T + "Vtbl", [t_objcont(cont, ctx, T)]))
-                w(VTBL_DOC % T + "typedef struct %s {\n%s\n} %s;\n" % (vn, "\n".join(vtbl_lines(t["funcs"], cn)), vn))
+                w(VTBL_DOC % T + "typedef struct %s {\n%s\n} %s;\n" % (vn, "\n".join(vtbl_lines(t["funcs"], cn, wrap=model.get("wrap_long", False))), vn))
                 on = mangle(t_obj(cont, ctx, T))
                 w(OBJ_DOC + "typedef struct %s {\n    const struct %s *vtbl;\n    struct %s container;\n} %s;\n" % (on, vn, cn, on))
                 w("/**\n * Base CGlue trait object for trait %s.\n */\ntypedef struct %s %s;\n" % (T, on, mangle((T + "Base", [CONT_TYPES[cont], ctx_type(ctx)]))))
@@ -341,7 +352,7 @@ def render(model):
                 vfields = []
                 for tn in g["traits"]:
                     vn = mangle((tn + "Vtbl", [t_gcont(G, cont, ctx)]))
-                    w(VTBL_DOC % tn + "typedef struct %s {\n%s\n} %s;\n" % (vn, "\n".join(vtbl_lines(tmap[tn]["funcs"], cn)), vn))
+                    w(VTBL_DOC % tn + "typedef struct %s {\n%s\n} %s;\n" % (vn, "\n".join(vtbl_lines(tmap[tn]["funcs"], cn, wrap=model.get("wrap_long", False))), vn))
                     vfields.append("    const struct %s *vtbl_%s;" % (vn, tn.lower()))
                 if g.get("clone"):
                     vn = mangle(("CloneVtbl", [t_gcont(G, cont, ctx)]))
@@ -360,7 +371,7 @@ def render(model):
         cn = mangle(t_objcont(cont, "Context", T))
         w(CONT_DOC + "typedef struct %s {\n    %s\n    Context context;\n    struct %s ret_tmp;\n} %s;\n" % (cn, CONT_FIELD[cont], rn, cn))
         vn = mangle((T + "Vtbl", [t_objcont(cont, "Context", T)]))
-        w(VTBL_DOC % T + "typedef struct %s {\n%s\n} %s;\n" % (vn, "\n".join(vtbl_lines(t["funcs"], cn)), vn))
+        w(VTBL_DOC % T + "typedef struct %s {\n%s\n} %s;\n" % (vn, "\n".join(vtbl_lines(t["funcs"], cn, wrap=model.get("wrap_long", False))), vn))
         on = mangle(t_obj(cont, "Context", T))
         w(OBJ_DOC + "typedef struct %s {\n    const struct %s *vtbl;\n    struct %s container;\n} %s;\n\n" % (on, vn, cn, on))
     if model["leftover"]:
@@ -485,6 +496,7 @@ def describe(model):
         "contexts": model["contexts"],
         "no_context_objects": bool(model.get("no_context")),
         "callback_payload": model.get("callback_payload"),
+        "long_entries_wrapped": bool(model.get("wrap_long")),
         "context_generic_leftover": model["leftover"],
         "context_generic_trait_object": model.get("generic_objs", False),
         "foreign_early": model["foreign_early"],
@@ -567,7 +579,7 @@ def cpp_vtbl_lines(funcs, model, clone=False):
             ct = cpp_type(a[0], model)
             al.append("%s%s%s" % (ct, "" if ct.endswith("*") else " ", a[1]))
         rt = "CGlueC" if clone else cpp_type(ret, model)
-        lines.append("    %s%s(*%s)(%s);" % (rt, "" if rt.endswith("*") else " ", fname, ", ".join(al)))
+        lines.append(wrap_entry("%s%s(*%s)(" % (rt, "" if rt.endswith("*") else " ", fname), al, model.get("wrap_long", False)))
     return lines
 
 
